@@ -133,11 +133,21 @@ func (e *reqEnv) check(spec reqSpec, ns, rv string) (string, []seenReq) {
 		return fmt.Sprintf("%s client, namespace %q: Watch failed: %v", spec.pkg, ns, err), nil
 	}
 	wi.Stop()
+	// the same client instance is used again, as the controller does on every relist and reconnect
+	rv2 := rv + "7"
+	if _, err := c.List(ctx, metav1.ListOptions{}); err != nil {
+		return fmt.Sprintf("%s client, namespace %q: second List failed: %v", spec.pkg, ns, err), nil
+	}
+	wi2, err := c.Watch(ctx, metav1.ListOptions{ResourceVersion: rv2, Watch: true})
+	if err != nil {
+		return fmt.Sprintf("%s client, namespace %q: second Watch failed: %v", spec.pkg, ns, err), nil
+	}
+	wi2.Stop()
 	e.mu.Lock()
 	got := append([]seenReq(nil), e.seen...)
 	e.mu.Unlock()
-	if len(got) != 2 {
-		return fmt.Sprintf("%s client: expected one list and one watch request, the server saw %v", spec.pkg, got), got
+	if len(got) != 4 {
+		return fmt.Sprintf("%s client: expected list, watch, list, watch; the server saw %v", spec.pkg, got), got
 	}
 	nsPart := ""
 	if ns != "" {
@@ -151,12 +161,21 @@ func (e *reqEnv) check(spec reqSpec, ns, rv string) (string, []seenReq) {
 	if got[1].method != "GET" || got[1].path != wantWatchPath {
 		return fmt.Sprintf("%s client, namespace %q: watch request %s %s, expected GET %s", spec.pkg, ns, got[1].method, got[1].path, wantWatchPath), got
 	}
-	q := map[string]bool{}
-	for _, kv := range strings.Split(got[1].query, "&") {
-		q[kv] = true
+	if got[2] != wantList {
+		return fmt.Sprintf("%s client, namespace %q: second list request of the same client %v, expected %v", spec.pkg, ns, got[2], wantList), got
 	}
-	if !q["watch=true"] || !q["resourceVersion="+rv] || len(q) != 2 {
-		return fmt.Sprintf("%s client: watch query %q, expected watch=true&resourceVersion=%s", spec.pkg, got[1].query, rv), got
+	for i, want := range map[int]string{1: rv, 3: rv2} {
+		if got[i].method != "GET" || got[i].path != wantWatchPath {
+			return fmt.Sprintf("%s client, namespace %q: watch request %s %s, expected GET %s", spec.pkg, ns, got[i].method, got[i].path, wantWatchPath), got
+		}
+		parts := strings.Split(got[i].query, "&")
+		q := map[string]bool{}
+		for _, kv := range parts {
+			q[kv] = true
+		}
+		if !q["watch=true"] || !q["resourceVersion="+want] || len(parts) != 2 {
+			return fmt.Sprintf("%s client: query of watch request #%d of one client instance is %q, expected exactly watch=true&resourceVersion=%s", spec.pkg, (i+1)/2, got[i].query, want), got
+		}
 	}
 	return "", got
 }
